@@ -144,7 +144,7 @@ def confirm(job, viol):
     except Exception as e:
         return False, 'replay raised %s: %s' % (type(e).__name__, e), None
     for k, v, info in obs:
-        if k == viol['key'] and not v:
+        if (k == viol['key'] or fnmatch.fnmatchcase(k, viol['key'].replace('[', '[[]'))) and not v:
             return True, 'reproduced', info
     return False, 'replay did not violate %s (obligations: %s)' % (
         viol['key'], [(k, v) for k, v, _ in obs][:6]), None
